@@ -33,12 +33,12 @@ RULE = ("condition ASTs of depth <= 4 over 7 profile names with every node kind 
 ASSUMPTIONS = [
     "The reference semantics is the module docstring read as in DESIGN.md C01 (multiplicity of minimum across "
     "genes; reasons survive negation).",
-    "Distances come from the ring model on gene locations; genes are single-exon or two-part origin-spanning.",
+    "Distances come from the ring model on gene locations (nearest exons); genes are single-exon, two-part origin-spanning, or of 3-4 exons with another gene inside an intron.",
     "minscore inside cds(...) is outside the documented grammar and is not generated.",
 ]
 REQUIRED = ["monitor:DetectionRule.detect", "op:met", "op:reasons", "boundary:distance==cutoff",
             "boundary:distance==cutoff-1", "boundary:in-range-only-across-origin", "node:cds", "node:min",
-            "node:score", "node:not", "outcome:anchors", "outcome:met-without-reason", "outcome:not-met"]
+            "node:score", "node:not", "class:gene-inside-intron-of-a-gene-with-hits", "history:accessors-read-between-evaluations", "outcome:anchors", "outcome:met-without-reason", "outcome:not-met"]
 
 REGISTRY: dict[str, list] = {}
 
@@ -178,9 +178,24 @@ def run_case(ctx, case):
     feats, results = build_inputs(layout)
     wrap = layout["L"] if layout["circular"] else 0
     near_boundary = False
+    if "m0" in layout["genes"] and "m1" in layout["genes"] and (layout["hits"].get("m0") or layout["hits"].get("m1")):
+        ctx.count("class:gene-inside-intron-of-a-gene-with-hits")
     for gene in sorted(results):
         ok, res = ctx.guard("detect-crash", case, rule.detect, gene, feats, results, circular_origin=wrap)
         # the class-wide monitor has evaluated the oracle on this call
+    # read-only use between evaluations (the pipeline reads the profiles of every rule to validate and to collect the
+    # dynamic profiles, and renders rule texts for the outputs): the profiles are those written in the rule, and
+    # the same rule object judges the same arrangement as before (the monitor evaluates the oracle on every call)
+    if zlib.crc32(text.encode()) % 2 == 0:
+        ok, got = ctx.guard("accessor-crash", case, lambda: (set(rule.conditions.profiles), rule.conditions.get_hit_string(),
+                                                              rule.contains_positive_condition(), str(rule.conditions),
+                                                              rule.reconstruct_rule_text()))
+        if ok:
+            ctx.count("history:accessors-read-between-evaluations")
+            if got[0] != R.profiles(ast):
+                ctx.violate("profiles-of-rule", {"got": sorted(got[0]), "expected": sorted(R.profiles(ast)), "text": text}, case)
+            for gene in sorted(results):
+                ctx.guard("detect-crash", case, rule.detect, gene, feats, results, circular_origin=wrap)
     # history: the same rule object meets other arrangements in which genes of the same names carry other hits (as
     # one ruleset meets every record of a run), then the first arrangement again; the monitor judges every call
     for other in case.get("later_layouts", []) + ([layout] if case.get("later_layouts") else []):
